@@ -382,6 +382,47 @@ pub fn execute(spec: &Spec) -> Option<Res> {
                 circuit_ok: matches!(out, Out::Vals(_)),
             })
         }
+        "perm" => {
+            // several periodic columns in ONE gadget call, periods in arbitrary order (the gadget shares
+            // work between columns); every output is judged against the native value, the model line is
+            // the last column's (`per` protocol)
+            let (log_n, x) = (n(0)? as usize, e(0)?);
+            let d = dom(*spec.shifts.first()?, log_n)?;
+            let ncols = n(1)? as usize;
+            let mut cols: Vec<Vec<F>> = vec![];
+            let mut off = 0usize;
+            for k in 0..ncols {
+                let lp = n(2 + k)? as usize;
+                let len = 1usize << lp;
+                cols.push(spec.base.get(off..off + len)?.iter().map(|c| F::from_u64(*c % P)).collect());
+                off += len;
+            }
+            let out = run_gadget(&[x], |cb, ins| {
+                <MyPcs as RecursivePcs<MyConfig, InputProof, InnerFri, Comm, Dom>>::evaluate_periodic_columns_at_point_circuit(pcs, cb, &d, &cols, ins[0])
+                    .map_err(|e| format!("Rejected{}", err_name(&e)))
+            });
+            let nat = native(|| cols.iter().map(|c| d.evaluate_periodic_column_at(c, x)).collect());
+            notes.push(format!("perm.cols.{ncols}"));
+            let verdict = judge("perm", &out, &nat, &mut notes);
+            let last = cols.last()?;
+            let log_p = last.len().trailing_zeros() as usize;
+            let folds = log_n - log_p;
+            let sub_shift = d.shift().exp_power_of_2(folds);
+            let cs: Vec<F> = Radix2Dit::default().coset_idft(last.clone(), sub_shift);
+            let cse: Vec<Challenge> = cs.iter().map(|c| lift(*c)).collect();
+            let out_last = match &out {
+                Out::Vals(v) => Out::Vals(v.last().map(|x| vec![*x]).unwrap_or_default()),
+                Out::Err(e) => Out::Err(e.clone()),
+                Out::Panic => Out::Panic,
+            };
+            Some(Res {
+                line: format!("per {TAG} {folds} {} {} {}", fmt(x), cse.len(), fmts(&cse)),
+                impl_line: impl_line("per", &out_last, true),
+                notes,
+                verdict,
+                circuit_ok: matches!(out, Out::Vals(_)),
+            })
+        }
         "per" => {
             let (log_n, x) = (n(0)? as usize, e(0)?);
             let d = dom(*spec.shifts.first()?, log_n)?;
@@ -740,6 +781,26 @@ pub fn generate(r: &mut Rng, scale: usize, todo: &mut Vec<Spec>) {
                     push(s, i);
                     i += 1;
                 }
+            }
+        }
+        // several columns per call, periods in every order (increasing, decreasing, mixed, repeated)
+        for log_n in 2..=8usize {
+            for rep in 0..(4 * scale) {
+                let mut s = spec("perm", String::new());
+                let shift = rand_shift(r);
+                let ncols = 2 + r.usize(4);
+                let lps: Vec<usize> = (0..ncols).map(|_| r.usize(log_n.min(5) + 1)).collect();
+                s.nums = vec![log_n as u64, ncols as u64];
+                s.nums.extend(lps.iter().map(|x| *x as u64));
+                s.shifts = vec![shift];
+                s.base = lps.iter().flat_map(|lp| (0..1usize << lp).map(|_| 0u64).collect::<Vec<_>>()).collect();
+                for v in s.base.iter_mut() {
+                    *v = r.below(P);
+                }
+                let d = dom(shift, log_n).unwrap();
+                s.elems = vec![if rep % 4 == 0 { special_points(r, &d) } else { rand_ef(r) }];
+                push(s, i);
+                i += 1;
             }
         }
         // invalid lengths: must be rejected at build time
